@@ -1027,6 +1027,34 @@ def cases(ctx):
         post = [g.op() for _ in range(rng.choice([1, 2, 4]))]
         yield "ended", mk_case(kind, rel, origin, [setup, [rng.choice([0, 1]), 0, pre + [[rng.choice([11, 12])]] + post, -1]])
         yield "readonly", mk_case(kind, rel, origin, [setup, [2, rng.randrange(2), pre + post, -1]])
+    # 6. every rdata type of the universe: merged twice through each argument form (the second add meets an
+    #    existing - possibly empty - rdataset), read back, deleted by type with boundary type values
+    allt = [A, NS, CNAME, SOA, MX, TXT, SIG, KEY, NXT, DNAME, RRSIG, NSEC, NSEC3]
+    for i in range(ctx.n(90, 1000)):
+        origin = rng.choice(ORIGINS)
+        kind, rel = rng.randrange(3), rng.randrange(2)
+        g = Gen(rng, origin)
+        ty = allt[i % len(allt)]
+        cov = rng.choice([A, CNAME, NSEC, KEY]) if ty in (RRSIG, SIG) else 0
+        relname = [] if ty == SOA else rng.choice(RELS)
+        ops = []
+        for j in range(rng.choice([2, 3])):
+            body, aux = g.items(ty, cov, 1)[0]
+            ttl = rng.choice(TTLS)
+            owner = g.spell(relname)
+            form = rng.randrange(3)
+            if form == 0:
+                ops.append([1, [owner, [4, ttl], [5, [ty, cov, body, aux, 1]]]])
+            elif form == 1:
+                ops.append([1, [owner, [2, [ty, cov, ttl, [] if (j == 0 and rng.random() < 0.25) else [[body, aux]], 1]]]])
+            else:
+                ops.append([1, [[3, owner[1], [ty, cov, ttl, [[body, aux]], 1]]]])
+            ops.append([6, g.spell(relname), ty, cov])
+        t = rng.choice([ty, ty, 65535, 65536, 0, -1])
+        ops.append([rng.choice([3, 4]), [g.spell(relname), [4, t]] + ([[4, rng.choice([cov, 65536])]] if cov else [])])
+        ops.append([10, [0, g.spell(relname, rng.randrange(2))[1]]])
+        hist = [g.setup()] if rng.random() < 0.5 else []
+        yield "types", mk_case(kind, rel, origin, hist + [[0, rng.randrange(2), ops, -1]])
     # 5. serial arithmetic (RFC 1982): increments landing on / around 0 and 2^31, absolute values
     for _ in range(ctx.n(60, 800)):
         origin = rng.choice(ORIGINS)
